@@ -46,7 +46,14 @@ def lex_part(lex):
         if k.startswith("sp.") or v is True:
             parts.append(k)
         else:
-            parts.append("%s=%s" % (k, {"\r\n": "crlf", "\t": "tab", "": "none", None: "nows", " ": "blank", "  ": "2blanks", "    ": "4blanks", "'": "apos"}.get(v, v)))
+            names = {"\r\n": "crlf", "\t": "tab", "": "none", None: "nows", " ": "blank", "  ": "2blanks", "    ": "4blanks", "'": "apos"}
+            if k.endswith("colon"):
+                names = {": ": "tight", ":": "none", " :": "left", " : ": "spaced"}
+            elif k in ("recvsep", "txsep", "enumsep", "mulsep"):
+                names = {", ": "comma-blank", ",": "comma"}
+            elif k == "muldash":
+                names = {" - ": "blanks"}
+            parts.append("%s=%s" % (k, names.get(v, v)))
     return "+".join(parts)
 
 
